@@ -296,6 +296,9 @@ class World:
             # indices beyond 255 / 65535)
             for i in range(t.get('fanout') or 0):
                 outs.append((SCRIPTS[(i * 7 + 1) % len(SCRIPTS)], VALUES[(i // 3) % len(VALUES)]))
+            # ... or to that many DISTINCT scripts (a flush then touches that many script hashes)
+            for i in range(t.get('fanout_distinct') or 0):
+                outs.append((b'\x04' + struct.pack('<I', i) + b'\x75\x51', 1 + i % 5))
             tx = TxRec(ins, outs)
             txs.append(tx)
             add_outputs(tx)
